@@ -21,12 +21,13 @@ def compliantOpt (cons : Option (Constraints R)) (c : J6 R) : Bool :=
   | some cc => cc.compliant c
   | none => true
 
-/-- the test the code applies to candidate `(k, c)`: within limits and the first-collision check
-that skips joints `0..k-1` finds nothing -/
+/-- the test the code applies to candidate `(k, c)`: within limits and -- unless collision checking is switched off
+(`CheckMode::NoCheck`, D21) -- the first-collision check that skips joints `0..k-1` finds nothing -/
 def accepted (sceneAt : J6 R → Scene R) (own : Safety R) (cons : Option (Constraints R))
     (choice : List (Nat × Nat) → Option (Nat × Nat)) (kc : Nat × J6 R) : Bool :=
   compliantOpt cons kc.2 &&
-    (detect (sceneAt kc.2) own own (some .firstCollisionOnly) (List.range kc.1) choice).isEmpty
+    (own.mode == .noCheck ||
+      (detect (sceneAt kc.2) own own (some .firstCollisionOnly) (List.range kc.1) choice).isEmpty)
 
 /-- the full check of one configuration (no skips), with the mode forced to first-collision -/
 def fullCheckFree (sc : Scene R) (own : Safety R) (choice : List (Nat × Nat) → Option (Nat × Nat)) : Bool :=
@@ -89,10 +90,10 @@ theorem offsets_eq_filter (sceneAt : J6 R → Scene R) (own : Safety R) (cons : 
   unfold nonCollidingOffsets
   apply List.filterMap_congr
   rintro ⟨k, c⟩ -
-  simp only [accepted, compliantOpt]
+  simp only [accepted, compliantOpt, beq_noCheck]
   cases cons with
-  | none => simp
-  | some cc => cases h : cc.compliant c <;> simp [h]
+  | none => by_cases hm : own.mode = CheckMode.noCheck <;> simp [hm]
+  | some cc => cases h : cc.compliant c <;> by_cases hm : own.mode = CheckMode.noCheck <;> simp [h, hm]
 
 /-- [A] the result is a sublist of the candidates (same order, at most twelve), and every element
 offered is within limits and passed the (skip-based) collision check -/
@@ -104,7 +105,8 @@ theorem offsets_sublist (sceneAt : J6 R → Scene R) (own : Safety R) (cons : Op
     (∀ c ∈ nonCollidingOffsets sceneAt own cons initial f t choice,
       compliantOpt cons c = true ∧
       ∃ k < 6, (c = initial.set k (f.get k) ∨ c = initial.set k (t.get k)) ∧
-        (detect (sceneAt c) own own (some .firstCollisionOnly) (List.range k) choice).isEmpty = true) := by
+        (own.mode = .noCheck ∨
+          (detect (sceneAt c) own own (some .firstCollisionOnly) (List.range k) choice).isEmpty = true)) := by
   rw [offsets_eq_filter]
   have hsub : (((offsetCandidates initial f t).filter (accepted sceneAt own cons choice)).map (·.2)).Sublist
       ((offsetCandidates initial f t).map (·.2)) := List.Sublist.map _ List.filter_sublist
@@ -116,7 +118,7 @@ theorem offsets_sublist (sceneAt : J6 R → Scene R) (own : Safety R) (cons : Op
     obtain ⟨⟨k, c'⟩, hkc, rfl⟩ := hc
     rw [List.mem_filter] at hkc
     obtain ⟨hmem, hacc⟩ := hkc
-    simp only [accepted, Bool.and_eq_true] at hacc
+    simp only [accepted, Bool.and_eq_true, Bool.or_eq_true, beq_noCheck, decide_eq_true_eq] at hacc
     obtain ⟨hk, hform⟩ := candidate_index_lt initial f t _ hmem
     exact ⟨hacc.1, k, hk, hform, hacc.2⟩
 
@@ -159,13 +161,14 @@ theorem fullCheckFree_iff (sc : Scene R) (own : Safety R) (choice : List (Nat ×
   simp only [fullCheckFree, detect, Option.getD_some, processTasks_first_isEmpty, hitsOf_isEmpty]
 
 /-- [A] under `UnmovedFree` the neighbours offered are exactly the candidates that are within limits
-and free according to the FULL collision check, in candidate order -/
+and free according to the FULL collision check (or checking is switched off), in candidate order -/
 theorem offsets_exact_full (sceneAt : J6 R → Scene R) (own : Safety R) (cons : Option (Constraints R))
     (initial f t : J6 R) (choice : List (Nat × Nat) → Option (Nat × Nat))
     (hU : UnmovedFree sceneAt own cons initial f t) :
     nonCollidingOffsets sceneAt own cons initial f t choice =
       (offsetCandidates initial f t).filterMap (fun kc =>
-        if compliantOpt cons kc.2 && fullCheckFree (sceneAt kc.2) own choice then some kc.2 else none) := by
+        if compliantOpt cons kc.2 && (own.mode == .noCheck || fullCheckFree (sceneAt kc.2) own choice)
+        then some kc.2 else none) := by
   rw [offsets_eq_filter, ← filterMap_ite]
   apply List.filterMap_congr
   rintro ⟨k, c⟩ hkc
@@ -177,10 +180,18 @@ theorem offsets_exact_full (sceneAt : J6 R → Scene R) (own : Safety R) (cons :
   · have hc' : compliantOpt cons c = false := by simpa using hc
     simp [hc']
 
-/-- [A] the same with `RobotBody::collides` (checking not switched off) -/
+/-- [A] the collision verdict of the same robot: `collides` is `false` in no-check mode and the negation of the full
+first-collision check otherwise -/
+theorem collides_eq (sc : Scene R) (own : Safety R) (choice : List (Nat × Nat) → Option (Nat × Nat)) :
+    collides sc own choice = !(own.mode == .noCheck || fullCheckFree sc own choice) := by
+  unfold collides fullCheckFree
+  cases hm : own.mode <;> simp [beq_noCheck]
+
+/-- [A] the same with `RobotBody::collides`, in EVERY check mode (the earlier version needed
+`own.mode ≠ .noCheck`: in no-check mode the code withheld candidates the robot reports free -- defect D21, repaired) -/
 theorem offsets_exact (sceneAt : J6 R → Scene R) (own : Safety R) (cons : Option (Constraints R))
     (initial f t : J6 R) (choice : List (Nat × Nat) → Option (Nat × Nat))
-    (hmode : own.mode ≠ .noCheck) (hU : UnmovedFree sceneAt own cons initial f t) :
+    (hU : UnmovedFree sceneAt own cons initial f t) :
     nonCollidingOffsets sceneAt own cons initial f t choice =
       (offsetCandidates initial f t).filterMap (fun kc =>
         if compliantOpt cons kc.2 = true ∧ collides (sceneAt kc.2) own choice = false
@@ -188,18 +199,18 @@ theorem offsets_exact (sceneAt : J6 R → Scene R) (own : Safety R) (cons : Opti
   rw [offsets_exact_full sceneAt own cons initial f t choice hU]
   apply List.filterMap_congr
   rintro ⟨k, c⟩ -
-  rw [fullCheckFree_eq_not_collides _ own choice hmode]
-  cases compliantOpt cons c <;> cases collides (sceneAt c) own choice <;> simp
+  rw [collides_eq]
+  cases compliantOpt cons c <;> cases (own.mode == CheckMode.noCheck || fullCheckFree (sceneAt c) own choice) <;> simp
 
 /-- [A] membership form: a configuration is offered iff it is a single-joint replacement that is
 within limits and not colliding -/
 theorem offsets_exact_mem (sceneAt : J6 R → Scene R) (own : Safety R) (cons : Option (Constraints R))
     (initial f t : J6 R) (choice : List (Nat × Nat) → Option (Nat × Nat))
-    (hmode : own.mode ≠ .noCheck) (hU : UnmovedFree sceneAt own cons initial f t) (c : J6 R) :
+    (hU : UnmovedFree sceneAt own cons initial f t) (c : J6 R) :
     c ∈ nonCollidingOffsets sceneAt own cons initial f t choice ↔
       (∃ k < 6, c = initial.set k (f.get k) ∨ c = initial.set k (t.get k)) ∧
       compliantOpt cons c = true ∧ collides (sceneAt c) own choice = false := by
-  rw [offsets_exact sceneAt own cons initial f t choice hmode hU]
+  rw [offsets_exact sceneAt own cons initial f t choice hU]
   simp only [List.mem_filterMap, Option.ite_none_right_eq_some, Option.some.injEq]
   constructor
   · rintro ⟨kc, hkc, hh, rfl⟩
@@ -231,7 +242,8 @@ example (sceneAt : J6 R → Scene R) (own : Safety R) (initial f t : J6 R)
   rw [offsets_eq_filter, List.filter_eq_self.2]
   intro kc _
   simp only [accepted, compliantOpt, Bool.true_and, detect, Option.getD_some,
-    processTasks_first_isEmpty, hitsOf_isEmpty]
+    processTasks_first_isEmpty, hitsOf_isEmpty, Bool.or_eq_true]
+  right
   intro p _; exact hfree _ _ _
 
 /-- if every candidate violates the limits nothing is offered, whatever the collision check says -/
